@@ -287,8 +287,10 @@ pub fn run(seed: u64, mut ov: impl FnMut(&mut engine::Cfg)) -> ! {
     {
         let (w2, rn) = (w.clone(), release_now.clone());
         let (dally, delay) = (p.release_dally, p.release_delay);
-        let n_events = 1 + n_by;
         let adjacent = if never { None } else { p.adjacent };
+        // cancel first, then the events: the target can not consume any, so exactly one event
+        // per bystander must do - a wake-up swallowed by the cancelled target starves one
+        let n_events = if adjacent == Some(true) && n_by >= 1 { n_by } else { 1 + n_by };
         let tco = target.co.as_ref().unwrap().coroutine().clone();
         actors.push(rt::spawn_actor(Ctx::Thread, "releaser", move || {
             for _ in 0..dally {
